@@ -23,7 +23,7 @@ def outcome_of(exc):
 def attr_pairs(attrs, skip=()):
     out = []
     for k, v in attrs.items():
-        if k in skip:
+        if k in skip or str(k).startswith("_"):
             continue
         out.append([str(k), fmt_float(v)])
     out.sort()
@@ -72,3 +72,90 @@ def run_strip(text):
             "desc": [[int(k), [str(x) for x in v]] for k, v in sorted(desc.items())],
             "ann": [[int(k), attr_pairs(v)] for k, v in sorted(ann.items())],
             "ez": [[int(k), str(v)] for k, v in sorted(ez.items())]}
+
+
+# ----------------------------------------------------------------------------------------------
+# resolver output
+# ----------------------------------------------------------------------------------------------
+_STRUCT_KEYS = {"fragid", "fragname", "mapping", "bonding", "graph", "atomname", "element", "charge", "aromatic",
+                "hcount", "contraction", "ez_isomer_atoms", "ez_isomer", "ez_isomer_class", "single_h_frag",
+                "isotope", "class", "rs_isomer", "position", "stereo"}
+
+
+def _num(x):
+    try:
+        return int(x) if float(x).is_integer() else x
+    except Exception:
+        return x
+
+
+def project_fine(g, all_atom):
+    """Fine graph returned by resolve(): full abstract state, projected when it is yielded."""
+    keys = list(g.nodes)
+    nodes = []
+    for k in sorted(keys, key=lambda x: (str(type(x)), x)):
+        a = g.nodes[k]
+        el = a.get("element") if all_atom else None
+        name = a.get("atomname")
+        nodes.append({
+            "id": k,
+            "el": str(el) if el is not None else "",
+            "name": "" if name is None else str(name),
+            "chg": int(a.get("charge", 0) or 0) if all_atom else 0,
+            "arom": bool(a.get("aromatic", False)),
+            "fragid": [int(x) for x in (a.get("fragid") or [])] if isinstance(a.get("fragid"), (list, tuple)) else [-999],
+            "fragname": "" if a.get("fragname") is None else str(a.get("fragname")),
+            "map": [[str(m[0]), int(m[1])] for m in (a.get("mapping") or [])],
+            "desc": [str(x) for x in (a.get("bonding") or [])],
+            "attrs": attr_pairs({kk: vv for kk, vv in a.items() if kk not in _STRUCT_KEYS}),
+            "raw_charge": fmt_float(a["charge"]) if "charge" in a else "",
+            "isH": bool(all_atom and a.get("element") == "H"),
+            "chiral": "" if a.get("chiral") is None else str(a.get("chiral")),
+            "ez": [list(x) if isinstance(x, (list, tuple)) else x for x in (a.get("ez_isomer") or [])] if False else [],
+        })
+    edges = []
+    for a, b, d in g.edges(data=True):
+        lo, hi = (a, b) if a < b else (b, a)
+        bd = d.get("bonding")
+        edges.append([lo, hi, ord2(d.get("order", 1)), [str(bd[0]), str(bd[1])] if bd else []])
+    edges.sort(key=lambda e: (e[0], e[1]))
+    return {"nodes": nodes, "edges": edges, "iter_order": keys}
+
+
+def project_coarse(meta):
+    nodes = []
+    for k in sorted(meta.nodes):
+        a = meta.nodes[k]
+        gr = a.get("graph")
+        nodes.append({"id": k, "name": "" if a.get("fragname") is None else str(a.get("fragname")),
+                      "attrs": attr_pairs({kk: vv for kk, vv in a.items() if kk not in _STRUCT_KEYS}),
+                      "raw_charge": fmt_float(a["charge"]) if "charge" in a else "",
+                      "has_graph": gr is not None,
+                      "graph": sorted(gr.nodes) if gr is not None else [],
+                      "graph_edges": sorted([min(x, y), max(x, y)] for x, y in gr.edges) if gr is not None else []})
+    edges = []
+    for a, b, d in meta.edges(data=True):
+        lo, hi = (a, b) if a < b else (b, a)
+        edges.append([lo, hi, _num(d.get("order", 1))])
+    edges.sort()
+    return {"nodes": nodes, "edges": edges}
+
+
+def run_resolve(text, last_all_atom=True, legacy=True, levels=None, driver="resolve_all"):
+    """
+    MoleculeResolver.from_string(text) driven to its last level (or `levels` steps).
+    Returns observation with one entry per yielded level, each projected at yield time.
+    """
+    from cgsmiles import MoleculeResolver
+    steps = []
+    try:
+        with quiet():
+            r = MoleculeResolver.from_string(text, last_all_atom=last_all_atom, legacy=legacy)
+            n = r.resolutions if levels is None else levels
+            for i in range(n):
+                meta, mol = r.resolve()
+                aa = last_all_atom and (i == r.resolutions - 1)
+                steps.append({"coarse": project_coarse(meta), "fine": project_fine(mol, aa), "all_atom": aa})
+    except Exception as exc:
+        return {"outcome": outcome_of(exc), "steps": steps, "msg": str(exc)[:200]}
+    return {"outcome": "ok", "steps": steps}
